@@ -130,6 +130,7 @@ impl RealState {
                     "api" => build_api(&t),
                     "bfs" => build_api_bfs(&t),
                     "tomb" => build_with_tombstones(&t, &mut rng),
+                    "bottomup" => build_bottom_up(&t, &mut rng),
                     "parse" => match Tree::from_newick(&t.newick()) {
                         Ok(t) => t,
                         Err(_) => return ("err".into(), None),
@@ -321,6 +322,18 @@ impl RealState {
                 let (Ok(p), Some(e), Some(n)) = (p.parse::<usize>(), opt_len(e), dec_opt_str(n)) else { return bad };
                 match self.tree.add_child(node_named(&n), p, e) {
                     Ok(id) => (format!("ok {id}"), None),
+                    Err(e) => (format!("err {}", err_kind(&e)), None),
+                }
+            }
+            ["ar.setname", x, name] => {
+                // in-place edit of a node's name through the public mutable accessor (no cache is told about it)
+                let Ok(x) = x.parse::<usize>() else { return bad };
+                let Some(nm) = dec_opt_str(name) else { return bad };
+                match self.tree.get_mut(&x) {
+                    Ok(n) => {
+                        n.name = nm;
+                        ("ok".into(), None)
+                    }
                     Err(e) => (format!("err {}", err_kind(&e)), None),
                 }
             }
